@@ -41,7 +41,7 @@ import tempfile
 import threading
 import time
 
-GEN_DEPS = []
+GEN_DEPS = ["canonical_path", "remove_relative_path_marker", "is_relative_to", "get_sanitized_output_path", "is_path_valid"]
 LEVEL = "proof"
 TRUSTED_BASE = [
     "Coq 8.16.1 kernel, vm_compute (no native_compute); no axioms (Print Assumptions: closed)",
@@ -1142,6 +1142,8 @@ def run(ctx):
     if ctx["model"] is None:
         return
     check_lexical(ctx, rep, rng, tier)
+    from harness import pathgen
+    pathgen.check_lexical_gen(ctx, rep, random.Random(ctx["seed"] + 8), tier)
     base = scratch_base("c03-")
     nproc = max(2, min(14, (os.cpu_count() or 4) - 2))
     t0 = time.time()
